@@ -179,7 +179,7 @@ package utils
 //@            r0 != nil && istype(r0.Value, *sdcpb.TypedValue_IdentityrefVal) && dyn(r0.Value, *sdcpb.TypedValue_IdentityrefVal) != nil && idrefOf(r0) != nil &&
 //@            present(schemaType.IdentityPrefixesMap, idrefOf(r0).Value) && present(schemaType.ModulePrefixMap, idrefOf(r0).Value) &&
 //@            idrefOf(r0).Prefix == schemaType.IdentityPrefixesMap[idrefOf(r0).Value] && idrefOf(r0).Module == schemaType.ModulePrefixMap[idrefOf(r0).Value]
-//@   ensures identityref_names_what_follows_the_qualifier [C12]: schemaType != nil && schemaType.Type == "identityref" && r1 == nil ==>
+//@   internal identityref_names_what_follows_the_qualifier [C12]: schemaType != nil && schemaType.Type == "identityref" && r1 == nil ==>
 //@            idrefOf(r0).Value == ite(callres(Cut, 0, 2), callres(Cut, 0, 1), callres(Cut, 0, 0)) && callarg(Cut, 0, 0) == v
 //@   loop 0 invariant true
 //@   loop 1 invariant true
